@@ -61,7 +61,7 @@ def describe(c):
             'history_rows': len(c['events'])}
 
 
-DESIGN_QUICK = ['MC_Carver_quick.cfg', 'MC_Carver_dev_quick.cfg', 'MC_Carver_kruskal_quick.cfg']
+DESIGN_QUICK = ['MC_Carver_quick.cfg', 'MC_Carver_dev_quick.cfg', 'MC_Carver_devnan_quick.cfg', 'MC_Carver_kruskal_quick.cfg']
 DESIGN_THOROUGH = ['MC_Carver_quick.cfg', 'MC_Carver_thorough.cfg', 'MC_Carver_nan_thorough.cfg',
                    'MC_Carver_dev_thorough.cfg', 'MC_Carver_kruskal_thorough.cfg']
 
